@@ -50,7 +50,8 @@ def gen_doc(rng):
         # a DOCTYPE with an internal subset in the layout replace_doctype() supports (one declaration per line, double-quoted values) that declares a few of the
         # general entities of a small shared pool; some of them are used in the content
         names = rng.sample(ENTITY_POOL, rng.randint(1, 3))
-        subset = "".join('<!ENTITY %s "%s">\n' % (nm, rng.choice(["(C)", "text %s" % nm, "&#169;", "&#x2014;", "AT and T", ""])) for nm in names)
+        # (white space between the entity value and the closing '>' is part of the grammar: EntityDecl ::= '<!ENTITY' S Name S EntityDef S? '>')
+        subset = "".join('<!ENTITY %s "%s"%s>\n' % (nm, rng.choice(["(C)", "text %s" % nm, "&#169;", "&#x2014;", "AT and T", ""]), rng.choice(["", "", "", " ", "  ", "\n", " \n "])) for nm in names)
         dt = "<!DOCTYPE %s [\n%s]>\n" % (re.match(r"<(\w+)", body).group(1), subset)
         span = content_span(body)
         if span:
@@ -198,13 +199,17 @@ def encode_doc(doc, enc):
     return doc.encode(enc)
 
 
-def judge(doc, headers, kind, history=None, enc="utf-8"):
-    """history: documents parsed earlier in the same process (recorded in the witness, re-parsed first on replay)"""
+PREAMBLES = [b"X-Cache: hit\nFetched: 2020-01-01\n\n", b"<?xml version='1.0'?><rss version='2.0'><channel><title>an earlier feed</title></channel></rss>\n", b"\x00\x01binary header\xff\n", b"<"]
+
+
+def judge(doc, headers, kind, history=None, enc="utf-8", preamble=None):
+    """history: documents parsed earlier in the same process (recorded in the witness, re-parsed first on replay); preamble: the document is handed over as an open
+    binary stream POSITIONED at its first byte, after this leading material (a cache file whose header block has been read): the document is what starts at the position"""
     try:
         data = encode_doc(doc, enc)
     except UnicodeEncodeError:
         return []             # the damage inserted a character the chosen encoding cannot carry: not a document in that encoding
-    w = {"doc": doc, "headers": headers, "damage": kind, "history": history, "enc": enc}
+    w = {"doc": doc, "headers": headers, "damage": kind, "history": history, "enc": enc, "preamble": preamble}
     if history and history is not LIVE_HISTORY:
         for h in history:
             try:
@@ -215,7 +220,13 @@ def judge(doc, headers, kind, history=None, enc="utf-8"):
         w["history"] = list(history)
     verdict = expat_verdict(data)
     try:
-        r = parse(data, headers)
+        if preamble is not None:
+            import io
+            stream = io.BytesIO(preamble + data)
+            stream.seek(len(preamble))
+            r = parse(stream, headers)
+        else:
+            r = parse(data, headers)
     except Exception as e:
         return [Finding(("raises", type(e).__name__), w, "parse raises %s: %s" % (type(e).__name__, e))]
     fs = []
@@ -270,6 +281,10 @@ def search(ctx, focus=None):
             dist["internal-subset"] = dist.get("internal-subset", 0) + 1
         distinct.add((doc, str(hdr)))
         failures += judge(doc, hdr, None, LIVE_HISTORY, enc)
+        if rng.random() < 0.2:
+            n += 1
+            dist["positioned-stream"] = dist.get("positioned-stream", 0) + 1
+            failures += judge(doc, hdr, None, LIVE_HISTORY, enc, preamble=rng.choice(PREAMBLES))
         if "[\n<!ENTITY" in doc:
             LIVE_HISTORY.append(doc)
             del LIVE_HISTORY[:-3]
@@ -285,7 +300,7 @@ def search(ctx, focus=None):
     return {"evaluations": n, "distinct_nontrivial": len(distinct), "failures": failures, "distribution": dist,
             "rule": "well-formed feeds (vocabulary-wide RSS 2.0 / RSS 1.0 / Atom 1.0, abstract feeds with markup-significant text in six formats, namespace cases) x XML declaration layouts "
                     "(none, single-line, single-quoted, multi-line, CRLF, standalone) x DOCTYPE (none, external-ID forms, internal subsets declaring general entities of a small shared pool -- "
-                    "so that what one document declares another one references without declaring it, in the same process; the witness records the preceding subset documents) x headers (none, empty, XML media types with / without charset, charset not the first parameter, any case) x encoding (utf-8; one in five iso-8859-1 / windows-1252 / "
+                    "so that what one document declares another one references without declaring it, in the same process; the witness records the preceding subset documents) x delivery (bytes; one in five also as a binary stream positioned at the document after other leading material) x headers (none, empty, XML media types with / without charset, charset not the first parameter, any case) x encoding (utf-8; one in five iso-8859-1 / windows-1252 / "
                     "iso-8859-15 / utf-16, correctly declared, a third of those longer than the 64 KiB detection prefix with non-ASCII text after it); "
                     "each also with single-point damages of the element content at random positions {dropped / mismatched end tag, bare &, bare <, undefined entity, undeclared prefix, duplicate "
                     "attribute, unquoted attribute, text / second root after the root, illegal character, DOCTYPE at a line start inside content, ]]> in text, unclosed comment, XML declaration "
@@ -314,7 +329,10 @@ def long_generic_utf_doc(enc):
 def replay(w):
     if w.get("construct") == "long-generic-utf":
         w = {"doc": long_generic_utf_doc(w["enc"]), "headers": {"content-type": "application/xml; charset=" + w["enc"]}, "damage": None, "history": None, "enc": w["enc"]}
-    fs = judge(w["doc"], w["headers"], w.get("damage"), w.get("history") or None, w.get("enc", "utf-8"))
+    pre = w.get("preamble")
+    if isinstance(pre, dict):
+        pre = bytes.fromhex(pre["bytes_hex"])
+    fs = judge(w["doc"], w["headers"], w.get("damage"), w.get("history") or None, w.get("enc", "utf-8"), preamble=pre)
     return (bool(fs), fs[0].what if fs else "bozo agrees with expat's verdict and is paired with bozo_exception")
 
 
